@@ -13,6 +13,7 @@ pub mod c12;
 pub mod c13;
 pub mod c14;
 pub mod c16;
+pub mod c17;
 pub mod l2scen;
 
 use crate::engine::Prop;
@@ -34,5 +35,6 @@ pub fn registry() -> Vec<Box<dyn Prop>> {
         Box::new(c13::C13),
         Box::new(c14::C14),
         Box::new(c16::C16),
+        Box::new(c17::C17),
     ]
 }
